@@ -110,11 +110,22 @@ func forall(lo, hi int, f func(int) bool) bool {
 //@   property C06
 //@   ensures docsSorted(result)
 
+// (Of every operator's checkpoints file exactly the checkpoint the job's handle NAMES is used - the
+// file is rewritten at every operator checkpoint and may already hold a later one the job never
+// completed: C13.)
 //@ func LoadCheckpointList
-//@   property C06
+//@   property C06 C13 C08
 //@   nosafety
+//@   atcall newCheckpointFromDocument: uint64(arg2.ID) == checkpointHandles[0].CheckpointID
+//@   loop 0:
+//@     invariant forall(0, idx_, func(j int) bool { return uint64(checkpointDocs[j].ID) == checkpointHandles[j].CheckpointID })
 //@   atcall newCheckpointFromDocument: forall(1, len(arg2.Levels), func(l int) bool { return docsSorted(arg2.Levels[l]) })
+//@   loop 1:
+//@     invariant uint64(compositeCheckpointDoc.ID) == checkpointHandles[0].CheckpointID
+//@   loop 2:
+//@     invariant uint64(compositeCheckpointDoc.ID) == checkpointHandles[0].CheckpointID
 //@   loop 3:
+//@     invariant uint64(compositeCheckpointDoc.ID) == checkpointHandles[0].CheckpointID
 //@     invariant 1 <= levelIndex && forall(1, levelIndex, func(l int) bool { return l < len(compositeCheckpointDoc.Levels) ==> docsSorted(compositeCheckpointDoc.Levels[l]) })
 
 // ---- savepoints (C14): ListFiles reports every WAL and table file of EVERY checkpoint in the
